@@ -97,7 +97,8 @@ archive_entry_xattr_add_entry(struct archive_entry *entry,
 		__archive_errx(1, "Out of memory");
 
 	if ((xp->value = malloc(size)) != NULL) {
-		memcpy(xp->value, value, size);
+		if (size > 0)
+			memcpy(xp->value, value, size);
 		xp->size = size;
 	} else
 		xp->size = 0;
